@@ -2804,9 +2804,12 @@ class Face3D(Base2DIn3D):
         """
         holes = []
         more_to_check = True
+        base_poly, base_pl = base_face.boundary_polygon2d, base_face.plane
         while more_to_check:
             for i, r_face in enumerate(other_faces):
-                if base_face.is_sub_face(r_face, tol, 1):
+                # use the tolerance to test if it's inside (edges may be colinear)
+                r_poly = Polygon2D(tuple(base_pl.xyz_to_xy(pt) for pt in r_face.boundary))
+                if base_poly.polygon_relationship(r_poly, tol) == 1:
                     holes.append(r_face)
                     del other_faces[i]
                     break
